@@ -42,6 +42,8 @@ func main() {
 		os.Exit(cmdOrdinals(os.Args[2:]))
 	case "errloops":
 		os.Exit(cmdErrLoops(os.Args[2:]))
+	case "lock":
+		os.Exit(cmdLock(os.Args[2:]))
 	default:
 		usage()
 	}
@@ -193,6 +195,9 @@ func runCheck(o checkOpts) checkOutcome {
 		out.exit = 2
 		out.loadErr = err.Error()
 		return out
+	}
+	for _, rb := range prog.rebound {
+		say("note: %s\n", rb)
 	}
 	bindExit := 0
 	for _, bi := range prog.bindIssues {
@@ -729,5 +734,33 @@ func cmdErrLoops(args []string) int {
 			}
 		}
 	}
+	return 0
+}
+
+// cmdLock writes contracts/ordinals.lock: the header text of every statement a loop#n / if#n clause is written for.
+func cmdLock(args []string) int {
+	fs := flag.NewFlagSet("lock", flag.ExitOnError)
+	repo := fs.String("repo", "/repo", "")
+	fs.Parse(args)
+	prog, err := loadProgram(*repo, repoPkgPatterns, nil)
+	if err != nil {
+		fmt.Println(err)
+		return 2
+	}
+	prog.lockOut = map[string]map[string][]string{}
+	if err := prog.loadExtContracts(filepath.Join(verifRoot(), "contracts", "ext")); err != nil {
+		fmt.Println(err)
+		return 2
+	}
+	if err := prog.bindContracts(); err != nil {
+		fmt.Println(err)
+		return 2
+	}
+	b, _ := json.MarshalIndent(prog.lockOut, "", " ")
+	if err := os.WriteFile(filepath.Join(verifRoot(), "contracts", "ordinals.lock"), append(b, '\n'), 0o644); err != nil {
+		fmt.Println(err)
+		return 2
+	}
+	fmt.Printf("ordinals.lock: %d functions with ordinal-anchored clauses\n", len(prog.lockOut))
 	return 0
 }
